@@ -5,6 +5,7 @@ package main
 
 import (
 	"go/types"
+	"strconv"
 	"strings"
 )
 
@@ -57,6 +58,8 @@ func init() {
 		o := (*pv).(*opaque)
 		bs := args[1].([]value)
 		if s, ok := o.data["sink"].(*sinkState); ok {
+			// appends to the shared O_APPEND output are ordered by the scheduler, not by the program
+			fr.i.p.yieldPoint()
 			s.writes = append(s.writes, bs)
 			return tuple{len(bs), nilError()}
 		}
@@ -207,6 +210,32 @@ func init() {
 		procS := evS.Field(pi).Type().Underlying().(*types.Struct)
 		pid, _ := auditField(raw, "pid")
 		proc[fieldIdx(procS, "PID")] = pid
+		// the arguments of an EXECVE record of the group (quoted a<i>= values, argc of them)
+		for _, mv := range msgs[1:] {
+			mp, _ := mv.(*value)
+			if mp == nil {
+				continue
+			}
+			m := (*mp).(structure)
+			mraw, ok2 := m[3].(string)
+			if _, sym := m[0].(*symInt); sym || !ok2 {
+				p.abort("unsupported", "aucoalesce model needs concrete records")
+			}
+			if asInt64(m[0]) != 1309 { // auparse.AUDIT_EXECVE
+				continue
+			}
+			argc, _ := auditField(mraw, "argc")
+			n, _ := strconv.Atoi(argc)
+			var argv []value
+			for k := 0; k < n; k++ {
+				a, ok := auditField(mraw, "a"+strconv.Itoa(k))
+				if !ok {
+					break
+				}
+				argv = append(argv, a)
+			}
+			proc[fieldIdx(procS, "Args")] = argv
+		}
 		var cell value = ev
 		return tuple{&cell, nilError()}
 	}
